@@ -15,7 +15,8 @@ inductive XNode
 deriving Repr
 
 def isNameStart (c : Char) : Bool := c.isAlpha || c = '_'
-def isNameChar (c : Char) : Bool := c.isAlphanum || c = '_' || c = '-' || c = '.'
+/-- Name characters; `:` is one (XML 1.0 Name), so a prefixed name `nc:rpc` and a declaration `xmlns:nc` are plain names here. -/
+def isNameChar (c : Char) : Bool := c.isAlphanum || c = '_' || c = '-' || c = '.' || c = ':'
 
 def serAttrs (attrs : List (Str × Str)) : Str :=
   attrs.flatMap fun a => ' ' :: a.1 ++ '=' :: '"' :: escapeAttr a.2 ++ ['"']
@@ -144,5 +145,46 @@ mutual
     | x :: y :: rest =>
       wf x && (match x, y with | .text _, .text _ => false | _, _ => true) && wfList (y :: rest)
 end
+
+/-! ### The two envelopes ncclient builds itself: `<hello>` (session.py HelloHandler.build) and `<rpc>` (rpc.py RPC._wrap)
+
+`pfx` is `nc:` with the declaration attribute `xmlns:nc` (default, Junos, … profiles) or empty with `xmlns`
+(profiles whose `get_xml_base_namespace_dict` maps the default namespace). -/
+
+def baseNs : Str := "urn:ietf:params:xml:ns:netconf:base:1.0".toList
+
+def nsDecl (pfx : Str) : Str × Str :=
+  (if pfx.isEmpty then "xmlns".toList else "xmlns:".toList ++ pfx.dropLast, baseNs)
+
+/-- `HelloHandler.build(capabilities, device_handler)`. -/
+def helloTree (pfx : Str) (caps : List Str) : XNode :=
+  .elem (pfx ++ "hello".toList) [nsDecl pfx]
+    [.elem (pfx ++ "capabilities".toList) [] (caps.map fun c => .elem (pfx ++ "capability".toList) [] [.text c])]
+
+/-- Text of an element that has exactly one text child (lxml's `.text` of a leaf). -/
+def leafText : XNode → Option Str
+  | .elem _ _ [.text s] => some s
+  | .elem _ _ [] => some []
+  | _ => none
+
+/-- `HelloHandler.parse`: the texts of the `capability` children of the `capabilities` child, in document order. -/
+def capsOf (pfx : Str) : XNode → List (Option Str)
+  | .elem _ _ children =>
+    children.flatMap fun c => match c with
+      | .elem n _ cs => if n = pfx ++ "capabilities".toList then
+          cs.filterMap fun x => match x with
+            | .elem m a k => if m = pfx ++ "capability".toList then some (leafText (.elem m a k)) else none
+            | _ => none
+        else []
+      | _ => []
+  | _ => []
+
+/-- `RPC._wrap(op)`: the `<rpc>` envelope with its message-id around one operation element. -/
+def rpcTree (pfx : Str) (mid : Str) (op : XNode) : XNode :=
+  .elem (pfx ++ "rpc".toList) [nsDecl pfx, ("message-id".toList, mid)] [op]
+
+def attrOf (k : Str) : XNode → Option Str
+  | .elem _ attrs _ => (attrs.find? fun a => a.1 = k).map (·.2)
+  | _ => none
 
 end NcVerif.XmlDoc
